@@ -124,7 +124,8 @@ func registerStringStubs(ex *Exec) {
 		panic(unsupported("strings.Trim on symbolic strings"))
 	}
 	S["strings.Split"] = func(ex *Exec, st *State, site ssa.Instruction, fn *ssa.Function, args []Value) Value {
-		s, okS := args[0].(*StrV).Concrete()
+		sv := args[0].(*StrV)
+		s, okS := sv.Concrete()
 		c, okC := args[1].(*StrV).Concrete()
 		if okS && okC {
 			parts := strings.Split(s, c)
@@ -135,7 +136,75 @@ func registerStringStubs(ex *Exec) {
 			id := ex.newObj(st, &ArrayV{E: e})
 			return &SliceV{Obj: id, Len: bv64(int64(len(e))), Cap: len(e), MaxLen: len(e)}
 		}
-		panic(unsupported("strings.Split on symbolic strings"))
+		if !okC || len(c) != 1 {
+			panic(unsupported("strings.Split on a symbolic string with a separator that is not one concrete byte"))
+		}
+		// bounded model: 1 part (no separator), 2 parts (exactly one), or "3 or more" (only the count is exact:
+		// the parts beyond the second are not modelled; callers that read them get an unsupported obligation)
+		sep := smt.Const(8, uint64(c[0]))
+		n := len(sv.B)
+		isSep := make([]*smt.Term, n)
+		cnt := bv64(0)
+		for i := 0; i < n; i++ {
+			isSep[i] = smt.And(smt.Ult(bv64(int64(i)), sv.Len), smt.Eq(sv.B[i], sep))
+			cnt = smt.Add(cnt, smt.Ite(isSep[i], bv64(1), bv64(0)))
+		}
+		// first separator position
+		first := sv.Len
+		for i := n - 1; i >= 0; i-- {
+			first = smt.Ite(isSep[i], bv64(int64(i)), first)
+		}
+		none := smt.Eq(cnt, bv64(0))
+		one := smt.Eq(cnt, bv64(1))
+		p0 := substr(sv, bv64(0), first)
+		p1start := smt.Ite(none, sv.Len, smt.Add(first, bv64(1)))
+		p1 := substr(sv, p1start, sv.Len)
+		e := []Value{p0, p1, ConcreteStr("<unmodelled>")}
+		id := ex.newObj(st, &ArrayV{E: e})
+		ln := smt.Ite(none, bv64(1), smt.Ite(one, bv64(2), bv64(3)))
+		return &SliceV{Obj: id, Len: ln, Cap: 3, MaxLen: 3}
+	}
+	S["strconv.ParseUint"] = func(ex *Exec, st *State, site ssa.Instruction, fn *ssa.Function, args []Value) Value {
+		sv := args[0].(*StrV)
+		base := concreteIntArg(args[1], "ParseUint base")
+		bits := concreteIntArg(args[2], "ParseUint bitSize")
+		mkErr := func() Value { return &IfaceV{T: nil, V: ex.newOpaque("error")} }
+		if cs, ok := sv.Concrete(); ok {
+			v, err := strconv.ParseUint(cs, int(base), int(bits))
+			if err != nil {
+				return &TupleV{E: []Value{smt.Const(64, v), mkErr()}}
+			}
+			return &TupleV{E: []Value{smt.Const(64, v), Nil}}
+		}
+		if base != 16 || bits != 16 {
+			panic(unsupported("symbolic strconv.ParseUint only for base 16, 16 bits"))
+		}
+		n := len(sv.B)
+		if n > 15 {
+			panic(unsupported("strconv.ParseUint on a symbolic string longer than 15 bytes"))
+		}
+		hexVal := func(b *smt.Term) (*smt.Term, *smt.Term) {
+			isD := inRange(b, '0', '9')
+			isL := inRange(b, 'a', 'f')
+			isU := inRange(b, 'A', 'F')
+			v := smt.Ite(isD, smt.Sub(b, smt.Const(8, '0')), smt.Ite(isL, smt.Sub(b, smt.Const(8, 'a'-10)), smt.Sub(b, smt.Const(8, 'A'-10))))
+			return smt.ZExt(v, 64), smt.Or(isD, smt.Or(isL, isU))
+		}
+		okAll := smt.False
+		val := bv64(0)
+		for L := 1; L <= n; L++ {
+			c := smt.Eq(sv.Len, bv64(int64(L)))
+			v := bv64(0)
+			for k := 0; k < L; k++ {
+				d, isH := hexVal(sv.B[k])
+				c = smt.And(c, isH)
+				v = smt.Add(smt.Mul(v, bv64(16)), d)
+			}
+			c = smt.And(c, smt.Ule(v, bv64(0xffff))) // out of range is an error (value then is the maximum)
+			val = smt.Ite(c, v, val)
+			okAll = smt.Or(okAll, c)
+		}
+		return &TupleV{E: []Value{smt.Ite(okAll, val, bv64(0)), mergeV(okAll, Nil, mkErr())}}
 	}
 	S["strconv.Atoi"] = func(ex *Exec, st *State, site ssa.Instruction, fn *ssa.Function, args []Value) Value {
 		sv := args[0].(*StrV)
@@ -149,8 +218,8 @@ func registerStringStubs(ex *Exec) {
 		}
 		// bounded model: optional sign followed by 1..k digits, k <= 6 (no overflow possible); anything else is an error
 		n := len(sv.B)
-		if n > 7 {
-			panic(unsupported("strconv.Atoi on a symbolic string longer than 7 bytes"))
+		if n > 15 {
+			panic(unsupported("strconv.Atoi on a symbolic string longer than 15 bytes"))
 		}
 		isDigit := func(b *smt.Term) *smt.Term { return inRange(b, '0', '9') }
 		dig := func(b *smt.Term) *smt.Term { return smt.ZExt(smt.Sub(b, smt.Const(8, '0')), 64) }
